@@ -22,8 +22,8 @@ type Evidence struct {
 // RealVsStub is the component inventory reported in every evidence file.
 var RealVsStub = map[string][]string{
 	"real": {"server (router, middleware, selectors, handlers, rpc command switch)", "datastore", "storage (contexts, key layout, manager)",
-		"storage/badger driver + Badger v3 on tmpfs", "storage/filelog", "all compiled data types", "dvid", "Go runtime goroutines (parked/released one at a time at store calls)"},
-	"simulated": {"goroutine interleaving at store/log calls (seeded scheduler)", "clock (testing/synctest bubble)", "hash-map iteration order (runtime build overlay, VERIF_MAPSEED)",
+		"storage/badger driver + Badger v3 on tmpfs", "storage/filelog", "all compiled data types", "dvid", "Go runtime goroutines (parked/released one at a time at the yield points)"},
+	"simulated": {"goroutine interleaving at store/log calls, Badger transactions and - in lock-yield runs - mutex acquisitions written in DVID's own sources (seeded scheduler)", "clock (testing/synctest bubble)", "hash-map iteration order (runtime build overlay, VERIF_MAPSEED)",
 		"UUID randomness (twinj/uuid generator seam)", "process crash (os.Exit in wrapper engine) and restart (fresh process)"},
 	"stubbed_or_absent": {"TCP listeners (HTTP and gorpc)", "Kafka", "e-mail", "webhooks", "cloud/cgo storage engines", "groupcache"},
 }
